@@ -76,6 +76,11 @@ class C15(vlib.Check):
             bl = (len(s) // 4) * 3
             for o in sorted(set([0, max(hl - 1, 0), hl, hl + 1, 64])):
                 yield 'hex_dec_buf %s %d' % (h, o)
+            if len(s) in (0, 8, 16) or (len(s) in (2, 4) and s[:1] in (b'A', b'0', b'4') and s[-1:] in (b'A', b'a', b'=', b'0')):
+                # output_size at the integer limits ("unbounded" callers): 2^31, 2^32, 2^63-1, 2^63, SIZE_MAX
+                for o in (2 ** 31, 2 ** 32, 2 ** 63 - 1, 2 ** 63, 2 ** 64 - 1):
+                    yield 'hex_dec_buf %s %d' % (h, o)
+                    yield 'b64_dec_buf %s %d' % (h, o)
             for o in sorted(set([0, max(bl - 3, 0), max(bl - 2, 0), max(bl - 1, 0), bl, bl + 1, 64])):
                 yield 'b64_dec_buf %s %d' % (h, o)
 
